@@ -154,7 +154,12 @@ func runCase(c Case, idx int) (fs []finding, incon string, obs map[string]int, r
 	}
 	from := b.Log.Len()
 	switch c.Mode {
-	case "online":
+	case "online", "idle":
+		// "idle": the subscriber's delivery goroutine has been blocked on an empty queue for a while
+		// when the message arrives (waiting time measured from before the block would be negative)
+		if c.Mode == "idle" {
+			time.Sleep(wait)
+		}
 		if tSent, tAcked, err = publish(payload, e); err != nil {
 			return nil, "", nil, err
 		}
@@ -217,7 +222,7 @@ func runCase(c Case, idx int) (fs []finding, incon string, obs map[string]int, r
 		tRecv = broker.Now()
 	}
 	wLo, wHi := tReadLo-tAcked, tRecv-tSent
-	if c.Mode == "online" {
+	if c.Mode == "online" || c.Mode == "idle" {
 		wLo = 0
 	}
 	if wLo < 0 {
@@ -298,7 +303,7 @@ func allCases(rng *rand.Rand, quick bool) []Case {
 		for _, e := range es {
 			for _, cc := range []uint32{0, 1, 2, 7200} {
 				for _, sv := range []byte{4, 5} {
-					for _, mode := range []string{"online", "offline", "slow"} {
+					for _, mode := range []string{"online", "idle", "offline", "slow"} {
 						if mode == "slow" && sv != 5 {
 							continue
 						}
@@ -307,6 +312,8 @@ func allCases(rng *rand.Rand, quick bool) []Case {
 						switch {
 						case mode == "online":
 							waits = []int{0}
+						case mode == "idle":
+							waits = []int{1300, 2600}
 						case l > 5*time.Second:
 							waits = []int{600, 1700}
 						default:
@@ -320,7 +327,11 @@ func allCases(rng *rand.Rand, quick bool) []Case {
 							}
 						}
 						for _, w := range waits {
-							cs = append(cs, Case{Pub: pub, E: e, C: cc, SubV: sv, Mode: mode, WaitMs: w, QoS: byte(1 + rng.Intn(2))})
+							q := byte(1 + rng.Intn(2))
+							if mode == "online" || mode == "idle" {
+								q = byte(rng.Intn(3))
+							}
+							cs = append(cs, Case{Pub: pub, E: e, C: cc, SubV: sv, Mode: mode, WaitMs: w, QoS: q})
 						}
 					}
 				}
